@@ -82,6 +82,8 @@ def run_property(prop: str, tier: str, seed: int, only_rule: str | None = None) 
             ctx.extra["self_validation"] = "skipped: the base tree already violates or could not be analysed"
         else:
             from . import selftest
+            import signal as _signal
+            _signal.alarm(0)        # the time budget bounds the analysis of /repo; every variant below runs in its own process with its own budget
             os.environ["CIJSA_NO_SELFTEST"] = "1"
             n, bad, details = selftest.run(prop, verbose=False, collect=True)
             ctx.extra["self_validation"] = {"variants": n, "wrong": bad, "mutants": sum(1 for d in details if d[1] == "violation"),
